@@ -499,7 +499,11 @@ func runC17(args []string) int {
 		"non-trivial = at least one comment created or deleted (rounds) / at least one removed and one added line (diffs); distinct = scenario content"
 	slog.SetDefault(slog.New(slog.NewTextHandler(io.Discard, nil)))
 	cwd, _ := os.Getwd()
-	cw := newCaseWriter(cwd, "Run.C17", 12)
+	shard := 12
+	if n > 1000 {
+		shard = 36 // thorough tier: fewer, larger case files (coqc start-up dominates small ones)
+	}
+	cw := newCaseWriter(cwd, "Run.C17", shard)
 	cw.preamble = "Open Scope N_scope.\n"
 	caseID := 0
 
